@@ -1,8 +1,8 @@
 (* C18 — one-hot encoding.  Property theorems only: each is closed by `exact <lemma>` and its
    assumptions are printed by the check. Statements are about the executable model SC.C18.Model,
    which the correspondence check ties to src/preprocessing/{categorical,series_encoder}.rs. *)
-From Coq Require Import List Arith Bool.
-From SC Require Import C18.Model C18.Proofs C18.Layout.
+From Coq Require Import List Arith Bool Permutation.
+From SC Require Import C18.Model C18.Proofs C18.Layout C18.ProofsOneHot C18.ProofsWrites C18.ProofsShape.
 Import ListNotations.
 
 (* Index map of `find_new_idxs` for every p, every strictly increasing categorical index list
@@ -38,6 +38,56 @@ Theorem C18_mapper_inverse_laws : forall series,
   (forall c, get_num cats c = None <-> ~ In c series).
 Proof. exact mapper_laws. Qed.
 
+(* One-hot / inverse-one-hot of the category mapper, for a mapper fitted on ANY list, any value type
+   with a `one`, a `zero` and the test `== one` (is_one):
+     1. every fitted category c has a one-hot vector of length k = number of categories, and
+        invert_one_hot of it returns c;
+     2. get_one_hot of a category not seen in fitting is None;
+     3. conversely, a genuine one-hot vector (length k, entries one/zero only) accepted by
+        invert_one_hot is reproduced by get_one_hot of the returned category;
+     4. EXACT acceptance condition of invert_one_hot, as the Rust computes it: it returns c iff the
+        vector has exactly one entry `== one`, at a position i, and i is the index of c
+        (`categories[i]`; an out-of-range i is a panic in Rust, None here);
+     5-7. hence it rejects the all-zero vector (no entry == one), every vector with two ones, and a
+        vector whose single one lies beyond the categories.
+   The code does NOT compare the length of the vector with k: see
+   C18_invert_one_hot_length_not_checked below. *)
+Theorem C18_one_hot_round_trip : forall (V : Type) (vzero vone : V) (is_one : V -> bool),
+  is_one vone = true -> is_one vzero = false ->
+  forall series,
+  let cats := fit_to_iter series in
+  (forall c, In c series ->
+     exists oh, get_one_hot vzero vone cats c = Some oh /\ length oh = length cats /\
+                invert_one_hot is_one cats oh = Some c) /\
+  (forall c, ~ In c series -> get_one_hot vzero vone cats c = None) /\
+  (forall v c, length v = length cats ->
+     (forall j, j < length v -> nth j v vzero = if is_one (nth j v vzero) then vone else vzero) ->
+     invert_one_hot is_one cats v = Some c -> get_one_hot vzero vone cats c = Some v) /\
+  (forall v c, invert_one_hot is_one cats v = Some c <->
+     exists i, i < length v /\ is_one (nth i v vzero) = true /\
+               (forall j, j < length v -> is_one (nth j v vzero) = true -> j = i) /\
+               nth_error cats i = Some c) /\
+  (forall v, (forall j, j < length v -> is_one (nth j v vzero) = false) ->
+     invert_one_hot is_one cats v = None) /\
+  (forall v i j, i < length v -> j < length v -> i <> j ->
+     is_one (nth i v vzero) = true -> is_one (nth j v vzero) = true ->
+     invert_one_hot is_one cats v = None) /\
+  (forall v i, i < length v -> is_one (nth i v vzero) = true -> length cats <= i ->
+     invert_one_hot is_one cats v = None).
+Proof. exact @fitted_one_hot_laws. Qed.
+
+(* What the code does with a vector of the wrong length: nothing special.  A too short / too long
+   vector, or one with entries other than 0 and 1, is accepted as long as exactly one entry == 1 and
+   it lies inside the category range (witness over nat values, one = 1, categories [5;6;7]).
+   So the clause "invert_one_hot rejects every vector that is not a one-hot vector of the right
+   length" is refuted for wrong lengths by the faithful model (src/preprocessing/series_encoder.rs,
+   `invert_one_hot`: only `s.len() == 1` is tested). *)
+Theorem C18_invert_one_hot_length_not_checked :
+  invert_one_hot (Nat.eqb 1) (fit_to_iter [5; 6; 7]) [1] = Some 5 /\
+  invert_one_hot (Nat.eqb 1) (fit_to_iter [5; 6; 7]) [0; 1; 0; 0; 0] = Some 6 /\
+  invert_one_hot (Nat.eqb 1) (fit_to_iter [5; 6; 7]) [2; 1; 3] = Some 6.
+Proof. exact invert_one_hot_length_not_checked. Qed.
+
 (* The layout clause for whole matrices: for EVERY non-empty matrix x (rows of any values), every
    duplicate-free list of categorical column indices < p given in ANY order, and whatever the value
    type and the cast to a category are: if `fit` succeeds then the stored indices are the sorted list,
@@ -58,6 +108,87 @@ Theorem C18_onehot_layout : forall (V : Type) (vzero vone : V) (to_cat : V -> na
   exists r, transform vzero vone to_cat enc p x = Some r /\
             Forall2 (row_layout vzero vone to_cat enc p) x r.
 Proof. exact @onehot_layout. Qed.
+
+(* `transform` as a list of block writes (second semantics of OneHotEncoder::transform), and the
+   disjointness / coverage theorem — the strongest form of the layout clause.
+   For EVERY encoder that is well formed for p columns (enc_wf: what `fit` returns — as many mappers
+   as categorical columns, strictly increasing indices < p, every mapper non-empty; see
+   C18_fit_transform_is_tiling_of_writes) and EVERY input row:
+     - the row produced by the model's transform_row is `apply_writes` of the zero row of the
+       expanded width with the list `row_writes`: one `cat_write` (position new_idx[c], the one-hot
+       vector) per categorical column in ascending order, then the `plain_writes` singletons
+       (None iff some category is unseen);
+     - the writes correspond one to one (Forall2) to the input columns taken in the order
+       `write_order` = categorical ascending ++ plain ascending, which is a permutation of 0..p-1;
+       the write of column j starts at ni j = j + sum_{categorical c<j}(k_c-1), is width j long
+       (k_j for a categorical column, 1 for a plain one) and holds the indicator vector of the row's
+       category resp. the copied value (`write_of_col`);
+     - there are exactly p writes, none reaches beyond the output width W, every output cell
+       q < W lies in the range of EXACTLY ONE write (`in_range`), cells >= W in none;
+     - hence every write survives in the final row (nothing is overwritten). *)
+Theorem C18_transform_is_tiling_of_writes : forall (V : Type) (vzero vone : V) (to_cat : V -> nat)
+    (enc : encoder) (p : nat) (xr : list V),
+  enc_wf enc p ->
+  transform_row vzero vone to_cat enc p xr =
+    option_map (apply_writes (zero_row vzero enc p)) (row_writes vzero vone to_cat enc p xr) /\
+  forall ws, row_writes vzero vone to_cat enc p xr = Some ws ->
+    let W := expanded_width p (map (@length nat) (mappers enc)) in
+    Forall2 (write_of_col vzero vone to_cat enc xr) ws (write_order (cat_cols enc) p) /\
+    Permutation (write_order (cat_cols enc) p) (seq 0 p) /\
+    length ws = p /\
+    Forall (fun w => fst w + length (snd w) <= W) ws /\
+    (forall q, q < W -> length (filter (in_range q) ws) = 1) /\
+    (forall q, W <= q -> filter (in_range q) ws = []) /\
+    (forall w t, In w ws -> t < length (snd w) ->
+       nth (fst w + t) (apply_writes (zero_row vzero enc p) ws) vzero = nth t (snd w) vzero).
+Proof. exact @transform_row_tiling. Qed.
+
+(* ... for whole matrices after `fit` (any order of a duplicate-free index list): the encoder is
+   well formed, transform of the fitted matrix succeeds and every output row is the tiling
+   (`writes_tile` = the six clauses above) of its row's writes *)
+Theorem C18_fit_transform_is_tiling_of_writes : forall (V : Type) (vzero vone : V) (to_cat : V -> nat)
+    (valid : V -> bool) (x : list (list V)) (idxs : list nat) (p : nat) enc,
+  x <> [] -> NoDup idxs -> (forall c, In c idxs -> c < p) ->
+  fit vzero to_cat valid x idxs = Some enc ->
+  enc_wf enc p /\
+  exists r, transform vzero vone to_cat enc p x = Some r /\
+    Forall2 (fun xr row => exists ws, row_writes vzero vone to_cat enc p xr = Some ws /\
+                                      row = apply_writes (zero_row vzero enc p) ws /\
+                                      writes_tile vzero vone to_cat enc p xr ws) x r.
+Proof. exact @fit_transform_writes. Qed.
+
+(* Shape: for an encoder fitted on x (p columns, duplicate-free indices in any order) and EVERY
+   matrix x2 that transform accepts, the output has as many rows as x2 and every row has
+   p - |cat_idx| + sum_c k_c entries, k_c = number of distinct categories of column c of x. *)
+Theorem C18_transform_preserves_row_count_and_width : forall (V : Type) (vzero vone : V)
+    (to_cat : V -> nat) (valid : V -> bool)
+    (x : list (list V)) (idxs : list nat) (p : nat) enc (x2 r : list (list V)),
+  x <> [] -> NoDup idxs -> (forall c, In c idxs -> c < p) ->
+  fit vzero to_cat valid x idxs = Some enc ->
+  transform vzero vone to_cat enc p x2 = Some r ->
+  length (cat_cols enc) = length idxs /\
+  map (@length nat) (mappers enc) =
+    map (fun c => length (fit_to_iter (map to_cat (column vzero x c)))) (sort_nat idxs) /\
+  length r = length x2 /\
+  Forall (fun row => length row =
+            p - length idxs + list_sum (map (@length nat) (mappers enc))) r.
+Proof. exact @fit_transform_shape. Qed.
+
+(* The layout clause cell by cell (`mget m i j` = m[i][j]): plain column j is found unchanged at
+   column ni j, categorical column c is the indicator block at columns ni c .. ni c + k_c - 1. *)
+Theorem C18_onehot_cells : forall (V : Type) (vzero vone : V) (to_cat : V -> nat) (valid : V -> bool)
+    (x : list (list V)) (idxs : list nat) (p : nat) enc,
+  x <> [] -> NoDup idxs -> (forall c, In c idxs -> c < p) ->
+  fit vzero to_cat valid x idxs = Some enc ->
+  let cats := zip (cat_cols enc) (map (@length nat) (mappers enc)) in
+  exists r, transform vzero vone to_cat enc p x = Some r /\ length r = length x /\
+    forall i, i < length x ->
+      (forall j, j < p -> ~ In j (cat_cols enc) -> mget vzero r i (ni cats j) = mget vzero x i j) /\
+      (forall pidx c k t, nth_error (cat_cols enc) pidx = Some c ->
+         get_num (nth pidx (mappers enc) []) (to_cat (mget vzero x i c)) = Some k ->
+         t < length (nth pidx (mappers enc) []) ->
+         mget vzero r i (ni cats c + t) = if Nat.eqb t k then vone else vzero).
+Proof. exact @onehot_cells. Qed.
 
 (* fit rejects a categorical column holding a value that is not (within the margin) an integer code,
    and transform rejects a value whose category was not seen in fitting *)
@@ -83,3 +214,33 @@ Example C18_layout_instance :
   exists enc, fit 0 (fun v => v) (fun _ => true) [[1;5;7];[2;5;8]] [2;0] = Some enc /\
               transform 0 1 (fun v => v) enc 3 [[1;5;7];[2;5;8]] = Some [[1;0;5;1;0];[0;1;5;0;1]].
 Proof. eexists. split; reflexivity. Qed.
+
+(* ... for the one-hot round trip: nat values, one = 1, zero = 0 (the binary64 instance used by the
+   correspondence is ProofsOneHot.float_is_one_instance) *)
+Example C18_one_hot_instance :
+  Nat.eqb 1 1 = true /\ Nat.eqb 1 0 = false /\
+  get_one_hot 0 1 (fit_to_iter [7; 3; 7; 9]) 3 = Some [0; 1; 0] /\
+  invert_one_hot (Nat.eqb 1) (fit_to_iter [7; 3; 7; 9]) [0; 1; 0] = Some 3 /\
+  get_one_hot 0 1 (fit_to_iter [7; 3; 7; 9]) 4 = None /\
+  invert_one_hot (Nat.eqb 1) (fit_to_iter [7; 3; 7; 9]) [0; 0; 0] = None /\
+  invert_one_hot (Nat.eqb 1) (fit_to_iter [7; 3; 7; 9]) [1; 1; 0] = None /\
+  invert_one_hot (Nat.eqb 1) (fit_to_iter [7; 3; 7; 9]) [0; 0; 0; 1] = None.
+Proof. repeat split. Qed.
+
+(* ... for the writes / shape theorems: the encoder fitted above is well formed for p = 3; row
+   [2;5;7] is written as the block [0;1] at 0, the block [1;0] at 3 and the value 5 at 2 *)
+Example C18_writes_instance :
+  let enc := {| mappers := [[1; 2]; [7; 8]]; cat_cols := [0; 2] |} in
+  fit 0 (fun v => v) (fun _ => true) [[1;5;7];[2;5;8]] [2;0] = Some enc /\
+  enc_wf enc 3 /\
+  row_writes 0 1 (fun v => v) enc 3 [2;5;7] = Some [(0, [0; 1]); (3, [1; 0]); (2, [5])] /\
+  write_order [0; 2] 3 = [0; 2; 1] /\
+  transform_row 0 1 (fun v => v) enc 3 [2;5;7] = Some [0; 1; 5; 1; 0] /\
+  3 - 2 + list_sum [2; 2] = 5.
+Proof.
+  cbv zeta. split; [reflexivity|]. split; [|repeat split].
+  eapply (fit_wf 0 (fun v => v) (fun _ => true) [[1;5;7];[2;5;8]] [2;0]); try reflexivity.
+  - discriminate.
+  - repeat constructor; cbn; intuition discriminate.
+  - intros c [<-|[<-|[]]]; auto with arith.
+Qed.
